@@ -91,7 +91,7 @@ def bigpipe_case(R, idx):
     nl = R.choice([3000, 8000, 20000])
     text = b''.join(b'%06d %s\n' % (i, b'xyz' * R.randint(0, 12)) for i in range(nl))
     mode = R.choice(['v', 'se', 'se'])
-    cmd = R.choice(['true', 'false', 'head -n 1', 'head -n 2', 'echo hi'])
+    cmd = R.choice(['true', 'false', 'head -n 1', 'head -n 2', 'echo hi', 'cat', 'cat', 'tr a-z A-Z', 'sed p'])      # (streaming filters: output comes back while input is still being written)
     if mode == 'v':
         data = R.choice(['1G!G%s\n', ':%%!%s\n', ':w !%s\n', ':1,$w !%s\n', 'G:1,.!%s\n']) % cmd
     else:
@@ -129,8 +129,9 @@ def capacity_case(R, idx):
         data = (':' if mode == 'v' else '') + line + '\n' + R.choice(['', 'u\n', '1\n'])
         args = ['f1']
     elif fam == 'word':
-        L = R.choice([100, 118, 119, 120, 121, 130, 300, 1100])
-        files['f1'] = ('w' * L + ' b ' + 'w' * L + '\nb\n').encode()
+        L = R.choice([40, 60, 85, 100, 110, 118, 119, 120, 121, 130, 300, 1100])
+        ch = R.choice(['w', 'w', '漢', 'é', '😀', 'ب'])        # (multi-byte words: few characters, many bytes)
+        files['f1'] = (ch * L + ' b ' + ch * L + '\nb\n').encode()
         data = R.choice(['\x01', 'w\x01', '\x1d', '*', 'gd', 'gf', '\x17gf', 'ga', '\x01n', 'K', 'q']) + R.choice(['', 'n', 'N'])
         args = ['f1']
     elif fam == 'path':
